@@ -1022,6 +1022,14 @@ def run_bugfull(inp):
         # a built-in product state zero-padded to bond dimension `pad`: every R factor of prepare_canonical_site_tensors is rank
         # deficient, so M_k·new_q = A_k·M_(k+1) is NOT implied — only the R-multiplied identity of `SweepSpec` and the state identity
         mps = MPS(L, state=rng.choice(STATES), pad=int(inp["pad"]))
+    if inp.get("over"):
+        # over-complete bonds (b_1 > d, b_2 > d·b_1 …: more columns than the QR of the site can keep), so that the centre dimensions
+        # c_k = min(d·c_(k-1), b_k) are decided by their first argument at several sites in a row
+        ob = [int(b) for b in inp["over"]]
+        dims = [1] + ob + [1]
+        ts = [(nprng.standard_normal((2, dims[k], dims[k + 1])) + 1j * nprng.standard_normal((2, dims[k], dims[k + 1]))) / np.sqrt(2 * dims[k + 1])
+              for k in range(L)]
+        mps = MPS(L, tensors=ts, physical_dimensions=[2] * L)
     if inp.get("scale"):
         mps.tensors[0] = mps.tensors[0] * float(inp["scale"])   # norm conservation is not about unit norm
     bonds = [t.shape[2] for t in mps.tensors[:-1]]
@@ -1320,6 +1328,8 @@ def gen(rng, tier):
     for L, pad in ((2, 2), (3, 2), (4, 4), (5, 2), (6, 4)):   # rank-deficient gauge matrices; a state of norm 3
         yield {"kind": "bugfull", "L": L, "pad": pad, "digital": False, "sub": rng.randrange(1 << 30)}
     yield {"kind": "bugfull", "L": 4, "scale": 3.0, "digital": False, "sub": rng.randrange(1 << 30)}
+    for ob in ([4, 16], [4, 16, 4], [3, 7, 15, 2], [8, 8], [5, 12, 3, 9]):   # over-complete bonds (found thin by tools/model_mutation.py)
+        yield {"kind": "bugfull", "L": len(ob) + 1, "over": ob, "digital": False, "cap": 64, "dt": 0.05, "sub": hash(tuple(ob)) % (1 << 30)}
     for k in range({"quick": 120, "thorough": 1500, "search": 150}.get(tier, 120)):
         yield {"kind": "bugfull", "sub": rng.randrange(1 << 30)}
     # shortest chains with the cap exactly at the full bond dimension (no truncation possible, so the result must converge)
